@@ -560,3 +560,4 @@ MANIFEST = {
     "arguments in strict mode and with_context (C11) are outside this check.",
     "ref": "DESIGN.md §4 C17",
 }
+MANIFEST["text"] += " Derived-dimension specs: 17 specs naming derived dimensions alone or in expressions with their own exponent ('[mass]/[volume]', '1/[volume]', '[velocity]**2', '[pressure]', ...) x 14 values through ureg.check and Quantity.check against hand-written (L, M, T) exponents, and 8x8 two-parameter spec pairs x 7x7 value pairs."
